@@ -26,6 +26,7 @@ def _load() -> None:
         "backoff": (K.k_backoff, K.replay_backoff),
         "flow_chunks": (K.k_flow_chunks, K.replay_flow_chunks),
         "expiry": (K.k_expiry, K.replay_expiry),
+        "expiry_h2": (K.k_expiry_h2, K.replay_expiry),
         "interim": (K.k_interim, K.replay_interim),
         "h2_permits": (K.k_h2_permits, K.replay_h2_permits),
         "host_header": (lambda flavour=None: K.k_host_header(), lambda flavour, args: K.replay_host_header(args)),
